@@ -3,6 +3,7 @@ package c02
 import (
 	"testing"
 
+	"verifharness/basecheck"
 	"verifharness/j2tcheck"
 	"verifharness/pbt"
 )
@@ -17,3 +18,7 @@ func TestJSONToThrift(t *testing.T) { pbt.Run(t, Prop) }
 var Deep = pbt.Register(j2tcheck.DeepProp("TestDeepNesting"))
 
 func TestDeepNesting(t *testing.T) { pbt.Run(t, Deep) }
+
+var Base = pbt.Register(basecheck.ReqProp("TestRequestBase"))
+
+func TestRequestBase(t *testing.T) { pbt.Run(t, Base) }
